@@ -219,6 +219,7 @@ class Env:
         self.kills_after_exit = 0
         self.stdin_writes = []
         self.stdin_closes = 0
+        self.stdin_log = []            # order of writes (by writer) and closes on the child's stdin
         self.stop_calls = 0
         self.hang = None              # description of the first thing that did not happen in time
         self.consumed = []            # indices of events in consumption order
@@ -581,11 +582,13 @@ def make_runner_class():
                 getattr(tgt, "__name__", None), "main")
             with e.cv:
                 e.stdin_writes.append((who, bytes(data)))
+                e.stdin_log.append("w:" + who)
 
         def close_proc_stdin(self):
             e = self._verif_env
             with e.cv:
                 e.stdin_closes += 1
+                e.stdin_log.append("c")
                 e.cv.notify_all()
 
         @property
@@ -655,7 +658,7 @@ def run_scripted(case):
         return {"hang": True, "hang_what": "not run: %d earlier runs in this process hung" % Limits.hangs,
                 "not_run": True, "elapsed": 0.0, "kills": 0, "kills_after_exit": 0, "stop_calls": 0,
                 "program_finished": False, "workers": [], "alive_after": [], "timer": None,
-                "stdin_writes": {"in": [], "out": [], "err": [], "main": []}, "stdin_closes": 0, "out_stream": "", "err_stream": "", "out_other": "", "err_other": "",
+                "stdin_writes": {"in": [], "out": [], "err": [], "main": []}, "stdin_closes": 0, "stdin_log": [], "out_stream": "", "err_stream": "", "out_other": "", "err_other": "",
                 "out_submits": [], "err_submits": [], "consumed": [], "joins": [], "exit_observed": False,
                 "started": False, "outcome": "HANG", "stdout": None, "stderr": None, "exited": None}
     env = Env(case.get("events", []), never_eof=case.get("never_eof", ()),
@@ -753,6 +756,7 @@ def run_scripted(case):
         "stdin_writes": {w: [list(b) for ww, b in env.stdin_writes if ww == w]
                          for w in ("in", "out", "err", "main")},
         "stdin_closes": env.stdin_closes,
+        "stdin_log": list(env.stdin_log),
         # the stream the run was told to use: the explicit object, else sys.stdout/sys.stderr
         "out_stream": out_rec.text() if case.get("out_given") else sys_out.text(),
         "err_stream": err_rec.text() if case.get("err_given") else sys_err.text(),
